@@ -75,7 +75,9 @@ func (ex *Exec) CaseMap(s *smt.Term, upper bool, bound int) *smt.Term {
 		}
 		return ex.C.Concat(out...)
 	}
-	if !ex.Proves(ex.C.Le(ex.C.Len(s), ex.C.IntC(int64(bound)))) {
+	if s.Op == "str.substr" && s.Args[2].IsConst && s.Args[2].I >= 0 && int(s.Args[2].I) < bound {
+		bound = int(s.Args[2].I) // a substring of constant length needs only that many positions
+	} else if !ex.Proves(ex.C.Le(ex.C.Len(s), ex.C.IntC(int64(bound)))) {
 		ex.Inconclusive(fmt.Sprintf("case mapping of a string not bounded by %d: %s", bound, s))
 	}
 	ex.defineCaseFuns()
